@@ -14,7 +14,7 @@ def _r(rng, lo, hi, nd=3):
     return round(rng.uniform(lo, hi), nd)
 
 
-def gen_spec(rng, size=1, inp_only=False, exotic=0.0, share_curves=False, control_attrs=False, clock_boundaries=False):
+def gen_spec(rng, size=1, inp_only=False, exotic=0.0, share_curves=False, control_attrs=False, clock_boundaries=False, option_thresholds=False):
     """inp_only: restrict to what the INP format has a place for (C12).  exotic: probability of control forms that
     neither the [CONTROLS] syntax nor the dict 'simple' form can express (reported under their own keys).
     share_curves: let 2-3 elements refer to ONE curve of every type (volume: tanks, head / efficiency: pumps, headloss:
@@ -323,7 +323,27 @@ def gen_spec(rng, size=1, inp_only=False, exotic=0.0, share_curves=False, contro
         _control_attrs(sp)
     if clock_boundaries:
         _clock_boundaries(sp)
+    if option_thresholds:
+        _option_thresholds(sp)
     return sp
+
+
+# required pressure around EPANET's lower limit 0.1 in FILE units: 0.1 psi = 0.07034 m (US systems), 0.1 m (metric)
+REQUIRED_PRESSURES = [0.0705, 0.072, 0.08, 0.09, 0.0965, 0.0995, 0.1, 0.1005, 0.105, 0.12, 0.15, 0.35, 1.0, 14.0]
+
+
+def _option_thresholds(sp):
+    """option VALUES near the writer's limits, in both unit families (private generator): PDA with a required pressure around
+    0.1 psi and 0.1 m, small minimum pressures, solver options at / next to the values that are not written (0)"""
+    import random
+    r2 = random.Random("opts" + json.dumps(sp, sort_keys=True))
+    h = sp["options"].setdefault("hydraulic", {})
+    if r2.random() < 0.7:
+        h.update(demand_model=r2.choice(["PDA", "PDD"]), required_pressure=r2.choice(REQUIRED_PRESSURES), minimum_pressure=r2.choice([0.0, 0.0, 0.004, 0.03, 0.05]),
+                 pressure_exponent=r2.choice([0.5, 0.45, 1.0, 0.501]))
+    if r2.random() < 0.5:
+        h.update(headerror=r2.choice([0.0, 1e-6, 0.0001]), flowchange=r2.choice([0.0, 1e-7, 0.0001]), damplimit=r2.choice([0.0, 1e-5, 0.01]),
+                 emitter_exponent=r2.choice([0.5, 0.499, 1.0]), accuracy=r2.choice([0.001, 1e-5, 0.0099]))
 
 
 CLOCK_BOUNDARIES = [0, 1, 1800, 3599, 3600, 11 * 3600 + 3599, 43199, 43200, 43201, 45000, 46799, 46800, 46801, 13 * 3600 + 1800, 86399]
